@@ -563,7 +563,7 @@ func sameNameWF(c *Case) *WF {
 var profC03 = Profile{
 	MaxProcs: 3, MaxItems: 2, Bufsizes: []int{0, 1, 2}, MaxSlots: 3,
 	Params: true, MultiOut: true, FanIn: true, FanOut: true,
-	Subdirs: true, Extras: true, Cores: true, Zip: true, EmptyOuts: true,
+	Subdirs: true, Extras: true, Cores: true, Zip: true, EmptyOuts: true, Joins: true,
 }
 
 // finalBefore: declared outputs that are already final (present) in a tree.
